@@ -142,3 +142,25 @@ void h_growloop(void){
   __CPROVER_assert(g_needed >= a_min_growth || g_needed == g_nsat, "F11b on return the requested growth is reached or no admissible point is left");
   __CPROVER_assert(0, "VACUITY-CANARY");
 }
+
+//@ text2
+/* C08 "when the limits leave no admissible new point, refinement returns with zero needed points": ghost index sets (empty or not) */
+typedef struct { bool empty; } gset;
+typedef struct { gset needed, updated_tensors; } GS;
+bool g_children_empty;
+static gset gset_children(void){ gset s = { nondet_bool() }; g_children_empty = s.empty; return s; }       /* selectFlaggedChildren under the limits: any outcome */
+static gset gset_plus_points(gset a){ gset s = { false }; return s; }
+static gset gset_complete(gset a){ return a; }
+static gset gset_minus_points(gset a){ gset s = { nondet_bool() }; return s; }
+void fam_clearRefinement(GS *self){ self->needed.empty = true; self->updated_tensors.empty = true; }
+void fam_proposeUpdatedTensors(GS *self){ self->needed.empty = nondet_bool(); }
+void fam_prepareSequence(GS *self){ }
+
+//@ harness h_surplus_sets
+void h_surplus_sets(void){
+  GS g; g.needed.empty = nondet_bool(); g.updated_tensors.empty = nondet_bool();      /* any earlier refinement may be pending */
+  SURPLUS(&g);
+  __CPROVER_assert(!g_children_empty || g.needed.empty, "C08 when the level limits (or the tolerance) leave no admissible child, surplus refinement returns with zero needed points: no stale refinement survives");
+  __CPROVER_assert(!g_children_empty || g.updated_tensors.empty, "C08 ... and with no pending tensors");
+  __CPROVER_assert(0, "VACUITY-CANARY");
+}
